@@ -69,7 +69,10 @@ class ApiGen:
             self.feat("foreign_class_type")
             n, mod = r.choice([("Path", "pathlib"), ("Tensor", "torch"), ("_Hidden", "numpy"), ("DataFrame", "pandas.core.frame"),
                                ("Parser", "email.parser"), ("HTMLParser", "html.parser"), ("Queue", "asyncio.queues"),
-                               ("JoinableQueue", "multiprocessing.queues"), ("Tensor", "numpy"), ("in", "torch.nn")])
+                               ("JoinableQueue", "multiprocessing.queues"), ("Tensor", "numpy"), ("in", "torch.nn"),
+                               # classes of other libraries that live in private sub-modules
+                               ("Future", "concurrent.futures._base"), ("Policy", "email._policybase"),
+                               ("Loader", "importlib._abc"), ("Core_Thing", "some_lib._impl._core")])
             return T.NamedType(n, mod + "." + n)
         c = r.choice(classes)
         self.feat("package_class_type")
